@@ -47,6 +47,10 @@ def _verify_one(args):
         return key, None, {}, traceback.format_exc()
 
 
+LARGE_IN_QUICK = {"C01", "C02", "C03", "C04", "C05", "C08", "C09", "C12",
+                  "C14", "C18", "C19", "C20"}
+
+
 def run_standin(name: str, tier: str, seed: int, hints: List[dict]) -> dict:
     """bounded stand-in / replay harness: real code under /venv/bin/python with
     the pure-Python decimalfp (the C extension corrupts the heap)."""
@@ -54,6 +58,11 @@ def run_standin(name: str, tier: str, seed: int, hints: List[dict]) -> dict:
     env["PYTHONPATH"] = REPO_SRC + os.pathsep + ROOT
     env["DECIMALFP_FORCE_PYTHON_IMPL"] = "1"
     env.pop("PYTHONHASHSEED", None)
+    # these stand-ins finish in seconds even at their larger bounds (the
+    # pure-Python decimalfp shortcut of the harness): the quick tier runs them
+    # at the bounds of the thorough tier
+    if tier == "quick" and name in LARGE_IN_QUICK:
+        tier = "thorough"
     job = json.dumps(dict(name=name, tier=tier, seed=seed, hints=hints))
     try:
         r = subprocess.run([RUNTIME_PY, "-m", "runtime.harness"], input=job,
